@@ -520,8 +520,13 @@ func c02Slicing(ev *vlib.Evidence, driver string, idx int) {
 
 func TestC02(t *testing.T) {
 	ev := vlib.NewEvidence("C02", "exploration",
-		"fault level: one store call of an update fails (k-th peer credit, the client debit, a balance read): a failed update must move nothing, a successful one stays zero-sum with every peer credited exactly the price or nothing; manager level: OnUpdate on a pinned billing clock for elapsed x price x interval x peer-set grids (shared wallets, host updaters, zero elapsed, empty peer sets) vs floor(elapsed*price/interval) computed over the rationals; pool level: signed vipnode_update histories comparing every account delta, the reply balance and the advance of LastSeen; slicing: the same span billed in 1, few and many updates; non-trivial = credit > 0 with >= 1 active peer billed; distinct = distinct case descriptors")
+		"(bin) the built pool binary with --contract.price in several spellings: the amount debited over two keep-alives lies within elapsed x price/minute for the elapsed time bracketed by the send/receive times, the host pays nothing; fault level: one store call of an update fails (k-th peer credit, the client debit, a balance read): a failed update must move nothing, a successful one stays zero-sum with every peer credited exactly the price or nothing; manager level: OnUpdate on a pinned billing clock for elapsed x price x interval x peer-set grids (shared wallets, host updaters, zero elapsed, empty peer sets) vs floor(elapsed*price/interval) computed over the rationals; pool level: signed vipnode_update histories comparing every account delta, the reply balance and the advance of LastSeen; slicing: the same span billed in 1, few and many updates; non-trivial = credit > 0 with >= 1 active peer billed; distinct = distinct case descriptors")
 	ev.Assume("elapsed spans < 100 years; negative elapsed time is outside the quantifier")
+	binDone := make(chan struct{})
+	go func() {
+		defer close(binDone)
+		parallelCases(vlib.Scale(7, 70), 4, func(i int) { binEconomy(ev, "C02", i) })
+	}()
 	for _, driver := range vlib.Drivers() {
 		s, cleanup, err := vlib.OpenStore(driver)
 		if err != nil {
@@ -534,5 +539,6 @@ func TestC02(t *testing.T) {
 		parallelCases(vlib.Scale(300, 6000), 8, func(i int) { c02PoolHistory(ev, driver, i) })
 		parallelCases(vlib.Scale(60, 1200), 8, func(i int) { c02Slicing(ev, driver, i) })
 	}
+	<-binDone
 	finish(t, ev)
 }
